@@ -145,7 +145,7 @@ package arvados
 
 //@ iface segment.Slice
 //@   modifies nothing
-//@ func memSegment.Len property C08 pure
+//@ func memSegment.Len property C08
 //@   modifies nothing
 //@   ensures result == len(me.buf)
 
@@ -153,7 +153,7 @@ package arvados
 // size invalidates cached pointers of other handles (repacked is bumped),
 // growing included.
 //@ func filenode.truncate property C08
-//@   requires fnValid(fn) && size >= 0
+//@   requires fnValid(fn) && size >= 0 && fn.repacked >= 0
 //@   ensures result == nil && fn.fileinfo.size == size
 //@   ensures size != old(fn.fileinfo.size) ==> fn.repacked == old(fn.repacked) + 1
 //@   ensures size == old(fn.fileinfo.size) ==> fn.repacked == old(fn.repacked)
